@@ -723,6 +723,16 @@ func cmdReplay(args []string) int {
 		fmt.Println(err)
 		return 2
 	}
+	var c24 struct {
+		Property string            `json:"property"`
+		Package  string            `json:"package"`
+		Function string            `json:"function"`
+		Model    map[string]string `json:"model"`
+		Test     string            `json:"test"`
+	}
+	if json.Unmarshal(buf, &c24) == nil && c24.Test != "" {
+		return replayTestSource(*verif, *repo, c24.Package, c24.Test)
+	}
 	var f struct {
 		Property string         `json:"property"`
 		Bounds   map[string]int `json:"bounds"`
